@@ -309,11 +309,11 @@ func (w *World) RunCell(n int, cell Cell, r *rand.Rand) Line {
 		case "fresh":
 			pay("code", a.SealCode(sess))
 		case "refexp":
-			sess.RefreshDeadline = now.Add(-[]time.Duration{world.U, 3 * time.Second, 20 * time.Second, 55 * time.Second, 5 * time.Minute, time.Hour}[r.Intn(6)])
+			sess.RefreshDeadline = now.Add(-[]time.Duration{world.U, 3 * time.Second, 20 * time.Second, 55 * time.Second, 5 * time.Minute, time.Hour, 40 * time.Millisecond, 300 * time.Millisecond, 900 * time.Millisecond}[r.Intn(9)])
 			pay("code", a.SealCode(sess))
 		case "lifeexp":
 			// expired by a whole unit, or only just (a few seconds): "has not expired" has no tolerance
-			sess.LifetimeDeadline = now.Add(-[]time.Duration{world.U, 3 * time.Second, 20 * time.Second, 55 * time.Second, 5 * time.Minute, time.Hour}[r.Intn(6)])
+			sess.LifetimeDeadline = now.Add(-[]time.Duration{world.U, 3 * time.Second, 20 * time.Second, 55 * time.Second, 5 * time.Minute, time.Hour, 40 * time.Millisecond, 300 * time.Millisecond, 900 * time.Millisecond}[r.Intn(9)])
 			pay("code", a.SealCode(sess))
 		case "cookiekey":
 			pay("code", a.SealCookie(sess))
